@@ -89,6 +89,18 @@ def handle (fn : String) : Handler := fun a impl =>
     let mono := (Array.replicate n 0).setIfInBounds (s % n) (if (s / n) % 2 = 0 then 1 else q - 1)
     some (fR fArr (do let m ← Modulus.mk? q; pure (negacyclicShift x s m)),
           specIfShift (s < 2*n) (fArr (Spec.negMul x mono q)))
+  | "negacyclic_monomial", [q, c, s, x] =>
+    -- `negacyclic_multiply_mononomial(_inplace)`: x * (c X^s) modulo (X^n + 1, q); model = scalar multiplication (`mulMod`, the kernel of
+    -- `multiply_scalar`) followed by the model of `negacyclic_shift`
+    let q := pNat q; let c := pNat c; let s := pNat s; let x := pArr x
+    let n := x.size
+    let cq := c % q
+    let mono := (Array.replicate n 0).setIfInBounds (s % n) (if (s / n) % 2 = 0 then cq else (q - cq) % q)
+    some (fR fArr (do
+            let m ← Modulus.mk? q
+            let t ← x.foldlM (fun (acc : Array Nat) v => do let r ← mulMod v c m; pure (acc.push r)) #[]
+            pure (negacyclicShift t s m)),
+          specIfShift (s < 2*n ∧ x.all (· < q)) (fArr (Spec.negMul x mono q)))
   | _, _ => none
 where
   specIfShift (c : Bool) (s : String) : String := if c then s else "ANY"
